@@ -287,6 +287,35 @@ Definition ingestG (fok oerr : string -> bool) (tab : deftab) (dropw : bool) (li
 
 Definition readlines (text : string) : list string := let (h, t) := rl text in cons_ne h t.
 
+(* ---- the file layer: open(path, encoding="utf-8") in universal-newline mode --------
+   Python's text mode translates "\r\n" and a lone "\r" to "\n" before readline()
+   splits after every "\n". *)
+Definition cr : ascii := ascii_of_N 13.
+Definition lf : ascii := ascii_of_N 10.
+
+Fixpoint univ (s : string) : string :=
+  match s with
+  | EmptyString => EmptyString
+  | String c r =>
+      if Ascii.eqb c cr then
+        match r with
+        | String d r' => if Ascii.eqb d lf then String lf (univ r') else String lf (univ r)
+        | EmptyString => String lf EmptyString
+        end
+      else String c (univ r)
+  end.
+
+(* encoding="utf-8-sig" (d3864ae): one leading UTF-8 byte order mark is not text *)
+Definition bom_bytes : string :=
+  String (ascii_of_N 239) (String (ascii_of_N 187) (String (ascii_of_N 191) EmptyString)).
+
+Definition strip_bom (s : string) : string :=
+  if prefix_of bom_bytes s then drop 3 s else s.
+
+(* the readline() chunks of a decoded text / of a file with these bytes *)
+Definition chunks_of_text (text : string) : list string := readlines (univ text).
+Definition chunks_of_bytes (bytes : string) : list string := chunks_of_text (strip_bom bytes).
+
 (* ---- printing for the correspondence harness ------------------------------ *)
 
 Definition show_bool (b : bool) : string := if b then "HETATM" else "ATOM".
@@ -322,6 +351,9 @@ Definition show_read (fok : string -> bool) (lines : list string) : string :=
 
 Definition run_ingest (tab : deftab) (dropw : bool) (text : string) : string :=
   show_result (ingest py_float_ok tab dropw (readlines text)).
+
+Definition run_ingest_file (tab : deftab) (dropw : bool) (bytes : string) : string :=
+  show_result (ingest py_float_ok tab dropw (chunks_of_bytes bytes)).
 
 Definition run_read (text : string) : string := show_read py_float_ok (readlines text).
 
